@@ -99,7 +99,7 @@ class Sym:
 
     def join(self, c, a, b):
         if a.kind == b.kind and a.kind in ("STR", "BOOL", "NUM"):
-            return V(a.kind, f"(if {c} then {a.term} else {b.term})")
+            return V(a.kind, f"(if {c} then {a.term} else {b.term})", exact=getattr(a, "exact", False) and getattr(b, "exact", False))
         return V("CELL", f"(if {c} then {cell(a)} else {cell(b)})")
 
     def expr(self, e, env):
@@ -118,15 +118,20 @@ class Sym:
             if at == "_fields":
                 return V("MAP", "(p_fields p)", vkind="OPTNUM")
             if at in self.consts:
-                return V("STR", strlit(self.consts[at]))
+                return V("STR", strlit(self.consts[at]), exact=True)
             raise Refuse(f"unsupported attribute self.{at}")
         if isinstance(e, ast.IfExp):
             return self.ite(self.test(e.test, env), lambda en: self.expr(e.body, en), lambda en: self.expr(e.orelse, en), env)
         if isinstance(e, ast.BoolOp) and isinstance(e.op, ast.Or) and len(e.values) == 2:
             a, b = self.expr(e.values[0], env), self.expr(e.values[1], env)
             if a.kind == b.kind == "STR":
-                return V("STR", f"(py_or_str {a.term} {b.term})")
+                return V("STR", f"(py_or_str {a.term} {b.term})", exact=getattr(a, "exact", False) and getattr(b, "exact", False))
             raise Refuse("`or` on non-strings")
+        if isinstance(e, ast.BinOp) and isinstance(e.op, ast.Add):
+            a, b = self.expr(e.left, env), self.expr(e.right, env)
+            if a.kind == b.kind == "STR" and getattr(a, "exact", False) and getattr(b, "exact", False):
+                return V("STR", f"({a.term} ++ {b.term})", exact=True)
+            raise Refuse("`+` on something other than two exact strings")
         if isinstance(e, ast.JoinedStr):
             parts = []
             for x in e.values:
@@ -136,10 +141,12 @@ class Sym:
                     v = self.expr(x.value, env)
                     if v.kind != "STR":
                         raise Refuse("f-string over a non-string")
+                    if not getattr(v, "exact", False):
+                        raise Refuse("an f-string formats a stored string through its __format__, which a str subclass may define otherwise: the text is str.__str__(s)")
                     parts.append(v.term)
                 else:
                     raise Refuse("unsupported f-string part")
-            return V("STR", "(" + " ++ ".join(parts) + ")") if parts else V("STR", "[]")
+            return V("STR", "(" + " ++ ".join(parts) + ")", exact=True) if parts else V("STR", "[]", exact=True)
         if isinstance(e, ast.Call):
             f = e.func
             if isinstance(f, ast.Name) and f.id == "str" and len(e.args) == 1 and not e.keywords:
@@ -151,8 +158,16 @@ class Sym:
                     return V("CELL", f"(CNum {v.term})")
                 v = self.expr(a, env)
                 if v.kind == "STR":
+                    if not getattr(v, "exact", False):
+                        raise Refuse("str() of a stored string is its __str__, which a str subclass may define otherwise: the text is str.__str__(s)")
                     return v
                 raise Refuse(f"str() of a {v.kind}")
+            if isinstance(f, ast.Attribute) and f.attr == "__str__" and isinstance(f.value, ast.Name) and f.value.id == "str" and len(e.args) == 1 and not e.keywords:
+                # str.__str__(s): the text of a string, whatever its class
+                v = self.expr(e.args[0], env)
+                if v.kind == "STR":
+                    return V("STR", v.term, exact=True)
+                raise Refuse(f"str.__str__() of a {v.kind}")
             if isinstance(f, ast.Name) and f.id in ("tuple", "list") and len(e.args) == 1 and not e.keywords:
                 v = self.expr(e.args[0], env)
                 if v.kind == "ROW":
